@@ -250,13 +250,49 @@ func init() {
 					// every grid IRI of the same host and path: present exactly when the reference normaliser says equivalent
 					a := grid[idx]
 					c.Distinct("member|"+a.S, true)
-					lst := vocab.IRIs{"https://unrelated.example/first", vocab.IRI(a.S), "https://unrelated.example/last"}
-					il := vocab.ItemCollection{vocab.IRI("https://unrelated.example/first"), vocab.IRI(a.S), &vocab.Object{ID: "https://unrelated.example/last", Type: vocab.NoteType}}
+					// before the member under test: an unrelated member, an empty one (what a list of ids holds for a member without an
+					// id), and a near miss - same host and path, another query - so that a scan that stops early, or that carries
+					// something over from a partial match, shows
+					near := a
+					pairsOf := func(g gridIRI) []string {
+						q := g.Key[1][strings.LastIndexByte(g.Key[1], '|')+1:]
+						if q == "" {
+							return nil
+						}
+						return strings.Split(q, "&")
+					}
+					ap := pairsOf(a)
+					for _, j := range gridNeighbours[idx] {
+						if grid[j].Key[1] == a.Key[1] {
+							continue
+						}
+						if near.S == a.S {
+							near = grid[j] // any near miss, unless a better one turns up:
+						}
+						// ... one whose query parameters are some, not all, of a's (a partial match that comes first)
+						np := pairsOf(grid[j])
+						if len(np) > 0 && len(np) < len(ap) {
+							sub := true
+							for _, x := range np {
+								found := false
+								for _, y := range ap {
+									found = found || x == y
+								}
+								sub = sub && found
+							}
+							if sub {
+								near = grid[j]
+								break
+							}
+						}
+					}
+					lst := vocab.IRIs{"https://unrelated.example/first", "", vocab.IRI(near.S), vocab.IRI(a.S), "https://unrelated.example/last"}
+					il := vocab.ItemCollection{vocab.IRI("https://unrelated.example/first"), vocab.IRI(""), vocab.IRI(near.S), vocab.IRI(a.S), &vocab.Object{ID: "https://unrelated.example/last", Type: vocab.NoteType}}
 					c.Pending("IRIs.Contains over the neighbours of " + a.S)
 					c.Guard("IRIs.Contains", func() {
 						for _, j := range gridNeighbours[idx] {
 							b := grid[j]
-							want := a.Key[1] == b.Key[1]
+							want := a.Key[1] == b.Key[1] || near.Key[1] == b.Key[1]
 							if got := lst.Contains(vocab.IRI(b.S)); got != want {
 								c.Fail(fmt.Sprintf("iri|Contains|%s|%s|neighbour", iriClass(a.S), iriClass(b.S)), fmt.Sprintf("IRIs%v.Contains(%q) = %v, reference normaliser says %v", lst, b.S, got, want), map[string]any{"list": lst, "x": b.S})
 							}
